@@ -110,6 +110,12 @@ type LocSet struct {
 	Src    string
 }
 
+type returnPoint struct {
+	line   int
+	prefix int
+	pc     string
+}
+
 type Exec struct {
 	prog      *Program
 	anchors   map[string][]string // heap component -> references (bases of slice parameters) at which every new heap version is related to its predecessor by a ground instance
@@ -154,6 +160,9 @@ type Exec struct {
 	requiresSrc []string
 	scopeSrc  []string
 	vacuityPrefix int
+	topContract   *Contract
+	implicitFrame bool // frame sweep: helpers without contract get the implicit frame-only contract
+	returnPoints  []returnPoint // returns of the function under verification (reachability guard)
 	quiet     int
 	devirtCache map[string]devirtCacheEntry
 	stamps    map[string]int
